@@ -194,8 +194,11 @@ Definition pre_flush (ps : pstate) (st : collstate) (ws : str) (p : nat) : colls
 
 (** the node list a general-nodes parser started at [pos] returns *)
 Definition gen_nodelist (pos : nat) (acc : list (option node)) : node :=
-  NList (match first_pos acc with Some p => Some p | None => Some pos end)
-        (match last_end acc with Some e => Some e | None => Some pos end) acc.
+  match mk_nodelist None None acc with
+  | NList a b items => NList (match a with Some _ => a | None => Some pos end)
+                             (match b with Some _ => b | None => Some pos end) items
+  | x => x
+  end.
 
 (** the collector meets the closing delimiter / end of input after trailing whitespace [tr] at [p] *)
 Definition close_state (ps : pstate) (st : collstate) (tr : str) (p : nat) : collstate :=
